@@ -148,7 +148,7 @@ func negotiateFeatures(ctx context.Context, s *Session, first, ws bool, features
 		// is in the features list to be negotiated) and we're not already on a
 		// secure connection, try it anyways to prevent downgrade attacks per RFC
 		// 7590.
-		doStartTLS = first && !advertisedStartTLS && s.State()&Secure != Secure && doStartTLS
+		doStartTLS = first && !advertisedStartTLS && s.State()&Secure != Secure && doStartTLS && startTLS.Negotiate != nil
 
 		switch {
 		case doStartTLS:
